@@ -152,7 +152,12 @@ class DecoratorRegistry:
                 State.set(test_handshake[0], test_handshake[1])
         await dm.start()
 
-        ret = await dm.wait_until()
+        try:
+            ret = await dm.wait_until()
+        finally:
+            # the waiting task may be cancelled (e.g. by task.unique): never leave the triggers behind
+            if dm.status is DecoratorManagerStatus.RUNNING:
+                await dm.stop()
 
         return ret
 
